@@ -80,7 +80,7 @@ def run(rep, tier):
     jobs.append((builds[0], dict(group="asconcrypt", level="O0")))
     jobs.append((builds[0], dict(group="asconsum", level="O0")))
     lowered = repo.lower_many(jobs)
-    for r in ("C12.D1", "C12.D1m", "C12.D2", "C12.D3", "C12.D4", "C12.D6", "C12.D7", "C12.D8", "C12.D9", "C12.D10"):
+    for r in ("C12.D1", "C12.D1m", "C12.D2", "C12.D3", "C12.D4", "C12.D6", "C12.D7", "C12.D8", "C12.D9", "C12.D10", "C12.D11"):
         rep.rule(r, {"C12.D1": "constant subscript inside its array",
                      "C12.D1m": "constant-extent block operation inside its object/member",
                      "C12.D2": "guard-bounded variable subscript below the array bound",
@@ -89,8 +89,10 @@ def run(rep, tier):
                      "C12.D6": "constant-extent access fits the guard-bounded remaining length",
                      "C12.D8": "length arithmetic keeps the full width of size_t (no zero-extended 32-bit mask)",
                      "C12.D9": "caller-supplied byte buffers are accessed with no alignment assumption",
+                     "C12.D11": "a signed call result used as a byte count is first shown to be non-negative",
                      "C12.D10": "a block write of the buffer's whole length starts at the buffer, not at an advanced cursor",
                      "C12.D7": "bytes a callee always accesses through a pointer parameter fit the object passed at each call site"}[r])
+    libdecls = None
     for (b, kw), lr in zip(jobs, lowered):
         m = ir.Module.load(lr.json)
         cname = b.cfg.name if kw["group"] == "lib" else kw["group"]
@@ -105,6 +107,7 @@ def run(rep, tier):
                 for x in d["decls"]:
                     if x.get("def"):
                         decls.setdefault(x["name"], x)
+            libdecls = libdecls or decls
         for f in m.defined():
             if not f.srcfile.startswith(repo.REPO):
                 continue      # libstdc++ template instantiations
@@ -117,6 +120,7 @@ def run(rep, tier):
         rule_strlen_sub(rep, m, cname)
         rule_param_extent(rep, m, cname)
         rule_alignment(rep, m, cname)
+        rule_signed_length(rep, m, cname, decls or libdecls or {})
         lri = repo.lower(b, inline_internal=True, **kw)
         widths.rule(rep, "C12.D8", ir.Module.load(lri.json), cname, inlined=True)
     control_d6(rep)
@@ -348,6 +352,93 @@ def rule_output_range(rep, m, f, decl, cname, rid="C12.D6", why=""):
         else:
             rep.instance(rid, 1, {"config": cname, "function": f.name, "buffer": params[k]["name"],
                                   "access": [off, off + w], "remaining_at_most": hi})
+
+
+def rule_signed_length(rep, m, cname, decls, rid="C12.D11"):
+    """D11: the transfer functions of the storage / file layer return a signed
+    count, with a negative value for errors.  When such a result is converted
+    to size_t and passed on as a byte count (a parameter called len / size /
+    ... of a library function, or the length of a block operation), a negative
+    value becomes a length near 2^64.  On the way to the call there must be a
+    test that excludes negative values: == a non-negative constant, > / >= a
+    constant >= -1 / 0, or an unsigned comparison below 2^31."""
+    for f in m.defined():
+        if not f.srcfile.startswith(repo.REPO):
+            continue
+        dom = None
+        for c in f.calls():
+            cal = c.callee or ""
+            if ptr.is_memset(c) or ptr.is_memcpy(c):
+                cand = [2]
+            else:
+                dd = decls.get(cal)
+                if dd is None or len(dd["params"]) != len(c.ops):
+                    continue
+                cand = [k for k, p in enumerate(dd["params"]) if "*" not in p["ty"] and p["name"] in LEN_NAMES]
+            for k in cand:
+                a = c.ops[k] if k < len(c.ops) else None
+                d = f.defs.get(a) if ir.is_local(a) else None
+                if d is None or d.op != "sext":
+                    continue
+                v = d.ops[0]
+                src = f.defs.get(v) if ir.is_local(v) else None
+                if src is None or src.op not in ("call", "invoke"):
+                    continue
+                dom = dom or f.dominators()
+                if _nonneg_guard(f, v, d.id, c, dom):
+                    rep.instance(rid, 1, {"config": cname, "function": f.name, "callee": cal, "count_from": src.callee or "indirect call"})
+                else:
+                    rep.violation(rid, "%s->%s:arg%d" % (f.name, cal, k), c.where(),
+                                  "%s passes the signed result of %s, converted to size_t, as the byte count of %s without first "
+                                  "excluding negative values: an error return of -1 becomes a length of 2^64 - 1" % (
+                                      f.name, src.callee or "a call through a function pointer", cal), config=cname)
+
+
+def _nonneg_guard(f, v, vext, site, dom):
+    names = {v, vext}
+    for i in f.insts():
+        if i.op in ("sext", "zext") and i.ops[0] == v:
+            names.add(i.id)
+    for b in f.blocks:
+        t = b.insts[-1]
+        if t.op != "br" or not t.ops or b.name not in dom.get(site.block.name, ()):
+            continue
+        ci = f.defs.get(t.ops[0]) if ir.is_local(t.ops[0]) else None
+        if ci is None or ci.op != "icmp":
+            continue
+        x, y = ci.ops
+        if not (isinstance(x, str) and x in names):
+            continue
+        c = ir.const_int(y)
+        if c is None:
+            continue
+        w = int(ci.d.get("opty", "i32")[1:]) if ci.d.get("opty", "i32")[1:].isdigit() else 32
+        w = 64 if x != v and x == vext else (32 if x == v else w)
+        sc = c - (1 << w) if c >> (w - 1) else c
+        p = ci.d["pred"]
+        good = None        # which successor excludes negative values
+        if p == "eq" and sc >= 0:
+            good = 0
+        elif p == "ne" and sc >= 0:
+            good = 1
+        elif p == "sgt" and sc >= -1:
+            good = 0
+        elif p == "sge" and sc >= 0:
+            good = 0
+        elif p == "slt" and sc >= 0:
+            good = 1
+        elif p == "sle" and sc >= -1:
+            good = 1
+        elif p in ("ult", "ule") and 0 <= sc < (1 << 31):
+            good = 0
+        elif p in ("ugt", "uge") and 0 <= sc < (1 << 31):
+            good = 1
+        if good is None or t.succs[0] == t.succs[1]:
+            continue
+        gs = t.succs[good]
+        if gs == site.block.name or gs in dom.get(site.block.name, ()):
+            return True
+    return False
 
 
 def rule_cursor_full_length(rep, m, f, decl, cname, rid="C12.D10"):
